@@ -8,6 +8,7 @@ import (
 	"crypto/rand"
 	"crypto/x509"
 	"crypto/x509/pkix"
+	"encoding/pem"
 	"fmt"
 	"io"
 	"math/big"
@@ -132,6 +133,12 @@ type OCSPDelegate struct {
 
 // Delegate issues a delegated OCSP responder certificate valid until notAfter.
 func (ca *CA) Delegate(notAfter time.Time) *OCSPDelegate {
+	return ca.DelegateWith(time.Now().Add(-24*time.Hour), notAfter, true)
+}
+
+// DelegateWith issues a responder certificate with the given validity period, with or without
+// the id-kp-OCSPSigning purpose (without: an ordinary end-entity certificate of the CA).
+func (ca *CA) DelegateWith(notBefore, notAfter time.Time, ocspSigning bool) *OCSPDelegate {
 	key, err := ecdsa.GenerateKey(elliptic.P256(), rand.Reader)
 	if err != nil {
 		panic(err)
@@ -142,9 +149,12 @@ func (ca *CA) Delegate(notAfter time.Time) *OCSPDelegate {
 	ca.mu.Unlock()
 	tpl := &x509.Certificate{
 		SerialNumber: big.NewInt(serial), Subject: pkix.Name{CommonName: "harness OCSP responder"},
-		NotBefore: time.Now().Add(-24 * time.Hour), NotAfter: notAfter,
+		NotBefore: notBefore, NotAfter: notAfter,
 		KeyUsage: x509.KeyUsageDigitalSignature, ExtKeyUsage: []x509.ExtKeyUsage{x509.ExtKeyUsageOCSPSigning},
 		BasicConstraintsValid: true,
+	}
+	if !ocspSigning {
+		tpl.ExtKeyUsage = []x509.ExtKeyUsage{x509.ExtKeyUsageServerAuth}
 	}
 	der, err := x509.CreateCertificate(rand.Reader, tpl, ca.Cert, &key.PublicKey, ca.Key)
 	if err != nil {
@@ -168,7 +178,10 @@ func (ca *CA) OCSPResponse(serial *big.Int, status int, thisUpdate, nextUpdate t
 	}
 	var signer crypto.Signer = ca.Key
 	responder := ca.Cert
-	if dg != nil {
+	if dg != nil && dg.Key == nil {
+		// signed by the CA itself, with the CA's own certificate embedded
+		tpl.Certificate = ca.Cert
+	} else if dg != nil {
 		tpl.Certificate = dg.Cert
 		signer = dg.Key
 		responder = dg.Cert
@@ -229,4 +242,67 @@ func (i *OCSPIssuer) Calls() int {
 	i.mu.Lock()
 	defer i.mu.Unlock()
 	return i.n
+}
+
+// LeafXOpts: what CA.Leaf cannot express.
+type LeafXOpts struct {
+	LeafOpts
+	IssuingCertificateURL []string
+	MustStaple            bool
+}
+
+// LeafX signs a leaf like CA.Leaf, with an authority-information-access URL for the issuer
+// certificate and / or the TLS feature extension "status_request" (OCSP must-staple).
+func (ca *CA) LeafX(o LeafXOpts) (chainPEM []byte, leaf *x509.Certificate, keyPEM []byte, err error) {
+	k, err := ecdsa.GenerateKey(elliptic.P256(), rand.Reader)
+	if err != nil {
+		return nil, nil, nil, err
+	}
+	keyPEM, err = certmagic.PEMEncodePrivateKey(k)
+	if err != nil {
+		return nil, nil, nil, err
+	}
+	ca.mu.Lock()
+	ca.serial++
+	serial := ca.serial
+	ca.mu.Unlock()
+	if o.Serial != 0 {
+		serial = o.Serial
+	}
+	tpl := &x509.Certificate{
+		SerialNumber: big.NewInt(serial), NotBefore: o.NotBefore, NotAfter: o.NotAfter,
+		KeyUsage: x509.KeyUsageDigitalSignature, ExtKeyUsage: []x509.ExtKeyUsage{x509.ExtKeyUsageServerAuth},
+		OCSPServer: o.OCSPServer, IssuingCertificateURL: o.IssuingCertificateURL, BasicConstraintsValid: true,
+		Subject: pkix.Name{CommonName: o.Names[0]}, DNSNames: o.Names,
+	}
+	if o.MustStaple {
+		// id-pe-tlsfeature 1.3.6.1.5.5.7.1.24, SEQUENCE { INTEGER 5 (status_request) }
+		tpl.ExtraExtensions = append(tpl.ExtraExtensions, pkix.Extension{
+			Id: []int{1, 3, 6, 1, 5, 5, 7, 1, 24}, Value: []byte{0x30, 0x03, 0x02, 0x01, 0x05}})
+	}
+	der, err := x509.CreateCertificate(rand.Reader, tpl, ca.Cert, &k.PublicKey, ca.Key)
+	if err != nil {
+		return nil, nil, nil, err
+	}
+	leaf, err = x509.ParseCertificate(der)
+	if err != nil {
+		return nil, nil, nil, err
+	}
+	chainPEM = append(pem.EncodeToMemory(&pem.Block{Type: "CERTIFICATE", Bytes: der}), ca.CertPEM...)
+	return chainPEM, leaf, keyPEM, nil
+}
+
+// NewAIAServer serves the CA certificate (DER) for IssuingCertificateURL downloads and counts
+// the downloads.
+func (ca *CA) NewAIAServer() (srv *httptest.Server, hits func() int) {
+	var mu sync.Mutex
+	n := 0
+	srv = httptest.NewServer(http.HandlerFunc(func(w http.ResponseWriter, r *http.Request) {
+		mu.Lock()
+		n++
+		mu.Unlock()
+		w.Header().Set("Content-Type", "application/pkix-cert")
+		w.Write(ca.Cert.Raw)
+	}))
+	return srv, func() int { mu.Lock(); defer mu.Unlock(); return n }
 }
